@@ -459,7 +459,9 @@ void harness(void)
  * operations over push_left / push_right / pop_left / pop_right (shorter sequences are its prefixes: everything is
  * asserted after each operation), followed by a drain from nondeterministically chosen ends.  Reference model: an array
  * window model[lo, hi). */
+#ifndef NOPS
 #define NOPS 4
+#endif
 void harness(void)
 {
   init_ghosts();
